@@ -493,6 +493,10 @@ func GenCase(r *driver.Rng, opt Options) (*desc.Case, *Meta) {
 		pkg = "tpkg"
 	}
 	file := desc.File{Name: "x.proto", Package: pkg}
+	if r.P(40) {
+		pc := []string{" This package holds the messages of the service\n", " Messages.\n second line of the package comment\n", " types\n"}[r.Intn(3)]
+		file.PackageComment = &pc
+	}
 	file.Enums = []desc.Enum{{Name: "EnumOne", Values: []int32{0, 1, 2, -1, 2147483647}}, {Name: "EnumTwo", Values: []int32{0, 5}}}
 	x.enums = []string{"EnumOne", "EnumTwo"}
 	for _, e := range x.enums {
